@@ -28,7 +28,7 @@ structure MasterOut where
   wdataReady : Bool
   rdataValid : Bool
   rdata : Nat
-deriving Repr
+deriving Repr, Inhabited
 
 /-- state-only view of the bank interfaces: `req.ready` (FIFO writable) and `req.lock` -/
 def bankFb (c : Cfg) (s : State) : Array Crossbar.BankFb :=
